@@ -135,15 +135,15 @@ OnCurve(curve, x, Ylo, Yhi) ==
 
 -----------------------------------------------------------------------------
 (* The integer codes.  "Error below 0.6 of one code": |max * f(x) - k| < 0.6, i.e.
-   g((k - 0.6)/max) < x < g((k + 0.6)/max); x the exact value of the f32 *)
+   g((k - 0.6)/max) < x < g((k + 0.6)/max); x the exact value of the f32 (a Dy >= 0) *)
 Within06(curve, max, k, x) ==
-  OnCurve(curve, x, IF k = 0 THEN RatZero ELSE Rat(10 * k - 6, 10 * max), Rat(10 * k + 6, 10 * max))
+  OnCurve(curve, RatOfDy(x), IF k = 0 THEN RatZero ELSE Rat(10 * k - 6, 10 * max), Rat(10 * k + 6, 10 * max))
 (* the same with 0.5: exact rounding of the curve *)
 Within05(curve, max, k, x) ==
-  OnCurve(curve, x, IF k = 0 THEN RatZero ELSE Rat(2 * k - 1, 2 * max), Rat(2 * k + 1, 2 * max))
+  OnCurve(curve, RatOfDy(x), IF k = 0 THEN RatZero ELSE Rat(2 * k - 1, 2 * max), Rat(2 * k + 1, 2 * max))
 FidelityDecided(curve, max, k, x) ==
   curve = "linear" \/ \A par \in Pars(curve) :
-     (k = 0 \/ Decided(par, Rat(10 * k - 6, 10 * max), x)) /\ Decided(par, Rat(10 * k + 6, 10 * max), x)
+     (k = 0 \/ Decided(par, Rat(10 * k - 6, 10 * max), RatOfDy(x))) /\ Decided(par, Rat(10 * k + 6, 10 * max), RatOfDy(x))
 
 -----------------------------------------------------------------------------
 (* Floating point results: tolerances are expressed on the ENCODED value Y: tol(Y) = Y * 2^-RelBits + 2^-AbsBits.
